@@ -33,16 +33,22 @@ def TH(name, op, ns, tiers, extra=(), **kw):
     """one obligation per home slot of the key operated on"""
     return [T2("%s.home%d" % (name, h), op, ns, tiers, ["HOME=%d" % h] + list(extra), **kw) for h in range(ns)]
 TH_ = ("thorough",)
+def split(obs, quick_homes):
+    """home slots in quick_homes run in both tiers, the others in thorough only"""
+    for o in obs:
+        h = int(o.name.split("home")[1].split(".")[0])
+        o.tiers = Q if h in quick_homes else TH_
+    return obs
 OBLIGATIONS = (
     [T2("init", "OP_INIT", 1, Q, ["HBITS=3"], ns2=5, mem=6)]
-    + TH("set", "OP_SET", 5, Q, replace_calls=STUB, mem=6)
-    + TH("rem", "OP_REM", 5, Q, replace_calls=STUB, mem=6)
-    + TH("get", "OP_GET", 5, Q, mem=6)
-    + TH("remabsent", "OP_REM_ABSENT", 5, Q, replace_calls=STUB, mem=6)
-    + TH("getabsent", "OP_GET_ABSENT", 5, Q, mem=6)
+    + split(TH("set", "OP_SET", 5, Q, replace_calls=STUB, mem=6), (0, 2, 4))
+    + split(TH("rem", "OP_REM", 5, Q, replace_calls=STUB, mem=6), (1, 4))
+    + split(TH("get", "OP_GET", 5, Q, mem=6), (0, 4))
+    + split(TH("remabsent", "OP_REM_ABSENT", 5, Q, replace_calls=STUB, mem=6), (3,))
+    + split(TH("getabsent", "OP_GET_ABSENT", 5, Q, mem=6), (4,))
     + [T("iter", "OP_ITER", 5, Q, mem=6), T("del", "OP_DEL", 5, Q, mem=6), T("resize", "OP_RESIZE", 5, Q, replace_calls=STUB, mem=6),
-       T2("rehash.1to5", "OP_REHASH", 1, Q, ["NS2=5", "HBITS=3"], ns2=5, mem=6),
-       T2("rehash.5to1", "OP_REHASH", 5, Q, ["NS2=1", "HBITS=3"], mem=6),
+       T2("rehash.1to5", "OP_REHASH", 1, TH_, ["NS2=5", "HBITS=3"], ns2=5, mem=8, timeout=3600),
+       T2("rehash.5to1", "OP_REHASH", 5, TH_, ["NS2=1", "HBITS=3"], mem=8, timeout=3600),
        T2("clearset", "OP_CLEAR_SET", 5, Q, ["HOME=0"], mem=6)]
     # thorough: 11-slot tables (every home slot), growth/shrink rehashes between 5 and 11 slots with 6-bit hashes
     # (all residue pairs modulo 5 and 11), and the 5-slot steps again with unrestricted 64-bit hash values
